@@ -1,4 +1,4 @@
-import MuscleModel.Conc.ProofsRCStep2
+import MuscleModel.Conc.ProofsRCStep3
 
 /-! # The joint invariant holds in every reachable configuration (lemmas for C10) -/
 
@@ -7,57 +7,75 @@ open Muscle.Conc Muscle.Conc.Pool
 
 theorem inv_prog {c : Cfg} {t : Nat} {th : Th} (h : Inv c) (ht : c.ths[t]? = some th) (rest : List Op) :
     Inv { c with ths := c.ths.set t { th with prog := rest } } :=
-  inv_local (g' := c.glob) h ht (fun _ => rfl) rfl (fun _ => rfl) (fun _ hs => hs)
+  inv_local (g' := c.glob) h ht (fun _ => rfl) rfl (fun _ => rfl) (fun _ _ hs => hs)
+
+theorem inv_clear0 {c : Cfg} {t : Nat} {th : Th} {a : Nat} (h : Inv c) (ht : c.ths[t]? = some th) (ha : a < th.slots.length)
+    (htodo : th.todo = []) (v : Slot) (hv : ∀ o, v ≠ some (o, true)) (rest : List Op) :
+    Inv { c with ths := c.ths.set t { th with slots := th.slots.set a v, todo := decOld (slotOf th a), prog := rest } } := by
+  have := inv_clear h ht ha htodo v hv [] [] rest neutral_nil neutral_nil
+  simpa using this
+
+theorem inv_switchTo {c c1 : Cfg} {t : Nat} {th th' : Th} {a b : Nat} {o : Oid} {f : Bool} {rest : List Op} {evs : List Evt} (h : Inv c)
+    (ht : c.ths[t]? = some th) (htodo : th.todo = []) (ha : a < th.slots.length)
+    (hs : switchTo c th a b o f rest = (c1, th', evs)) : Inv { c1 with ths := c1.ths.set t th' } := by
+  unfold switchTo at hs
+  split at hs
+  · cases hs; exact inv_todo h ht htodo [.incSlot a b] rest (neutral_incSlot a b)
+  · cases hs; exact inv_clear0 h ht ha htodo (some (o, false)) (by intro x hx; cases hx) rest
+
+theorem inv_setRefTo {c c1 : Cfg} {t : Nat} {th th' : Th} {a b : Nat} {o : Oid} {f : Bool} {rest : List Op} {evs : List Evt} (h : Inv c)
+    (ht : c.ths[t]? = some th) (htodo : th.todo = []) (ha : a < th.slots.length)
+    (hs : setRefTo c th a b o f rest = (c1, th', evs)) : Inv { c1 with ths := c1.ths.set t th' } := by
+  unfold setRefTo at hs
+  split at hs
+  · rename_i o' fa hsa
+    split at hs
+    · rename_i hoo; subst hoo
+      split at hs
+      · cases hs; exact inv_prog h ht rest
+      · split at hs
+        · cases hs; exact inv_todo h ht htodo [.incSame a] rest (neutral_incSame a)
+        · rename_i hne hf
+          have hfa : fa = true := by cases fa <;> cases f <;> simp_all
+          subst hfa
+          cases hs
+          exact inv_demote h ht htodo hsa (some (o', false)) (by intro x hx; cases hx) rest
+    · exact inv_switchTo h ht htodo ha hs
+  · exact inv_switchTo h ht htodo ha hs
 
 theorem inv_startOp {c c1 : Cfg} {t : Nat} {th th' : Th} {op : Op} {rest : List Op} {evs : List Evt} (h : Inv c)
-    (ht : c.ths[t]? = some th) (htodo : th.todo = []) (hs : startOp c t th op rest = (c1, th', evs)) :
+    (ht : c.ths[t]? = some th) (htodo : th.todo = []) (hs : startOp .new c t th op rest = (c1, th', evs)) :
     Inv { c1 with ths := c1.ths.set t th' } := by
   unfold startOp at hs
   split at hs
   · cases hs; exact inv_prog h ht rest
   · rename_i hok
+    have hnone : ∀ o : Oid, (none : Slot) ≠ some (o, true) := by intro o hx; cases hx
     cases op with
-    | newHeap a =>
-      simp only [opOk, decide_eq_false_iff_not, Classical.not_not] at hok
-      cases hs
-      exact inv_newHeap h ht hok htodo rest
-    | newPool a =>
-      simp only [opOk, decide_eq_false_iff_not, Classical.not_not] at hok
-      cases hs
-      exact inv_clear h ht hok htodo [.obtain] [.incRaw a] rest neutral_obtain (neutral_incRaw a)
+    | newHeap a => cases hs; exact inv_newHeap h ht htodo rest
+    | newPool a => cases hs; exact inv_todo h ht htodo [.obtain, .incRaw a] rest (neutral_append neutral_obtain (neutral_incRaw a))
     | copy a b =>
       simp only [opOk, decide_eq_false_iff_not, Classical.not_not] at hok
       simp only at hs
       split at hs
-      · split at hs
-        · cases hs; exact inv_prog h ht rest
-        · cases hs; exact inv_clear h ht hok.1 htodo [] [.incFrom a b] rest neutral_nil (neutral_incFrom a b)
-      · cases hs
-        have := inv_clear h ht hok.1 htodo [] [] rest neutral_nil neutral_nil
-        simpa using this
+      · exact inv_setRefTo h ht htodo hok.1 hs
+      · cases hs; exact inv_clear0 h ht hok.1 htodo none hnone rest
     | setRef a b =>
       simp only [opOk, decide_eq_false_iff_not, Classical.not_not] at hok
       simp only at hs
       split at hs
-      · split at hs
-        · cases hs; exact inv_prog h ht rest
-        · cases hs; exact inv_clear h ht hok.1 htodo [] [.incFrom a b] rest neutral_nil (neutral_incFrom a b)
-      · cases hs
-        have := inv_clear h ht hok.1 htodo [] [] rest neutral_nil neutral_nil
-        simpa using this
+      · exact inv_setRefTo h ht htodo hok.1 hs
+      · cases hs; exact inv_prog h ht rest
+      · cases hs; exact inv_clear0 h ht hok.1 htodo none hnone rest
     | reset a =>
       simp only [opOk, decide_eq_false_iff_not, Classical.not_not] at hok
-      cases hs
-      have := inv_clear h ht hok htodo [] [] rest neutral_nil neutral_nil
-      simpa using this
+      cases hs; exact inv_clear0 h ht hok htodo none hnone rest
     | swap a b =>
       simp only [opOk, decide_eq_false_iff_not, Classical.not_not] at hok
-      cases hs
-      exact inv_swap h ht hok.1 hok.2 rest
+      cases hs; exact inv_swap h ht hok.1 hok.2 rest
     | xchg a g =>
       simp only [opOk, decide_eq_false_iff_not, Classical.not_not] at hok
-      cases hs
-      exact inv_xchg h ht hok.1 hok.2 rest
+      cases hs; exact inv_xchg h ht hok.1 hok.2 rest
     | write a =>
       simp only at hs
       split at hs
@@ -67,14 +85,62 @@ theorem inv_startOp {c c1 : Cfg} {t : Nat} {th th' : Th} {op : Op} {rest : List 
       simp only [opOk, decide_eq_false_iff_not, Classical.not_not] at hok
       simp only at hs
       split at hs
-      · cases hs; exact inv_todo h ht htodo [.incTmp b, .incSwap a b] rest (neutral_ccast a b)
-      · cases hs
-        have := inv_clear h ht hok.1 htodo [] [] rest neutral_nil neutral_nil
-        simpa using this
+      · cases hs; exact inv_todo h ht htodo [.incTmp b, .incSlot a b] rest (neutral_append (neutral_incTmp b) (neutral_incSlot a b))
+      · rename_i o ho; cases hs; exact inv_clear0 h ht hok.1 htodo (some (o, false)) (by intro x hx; cases hx) rest
+      · cases hs; exact inv_clear0 h ht hok.1 htodo none hnone rest
+    | link a b =>
+      simp only at hs
+      split at hs
+      · split at hs
+        · cases hs; exact inv_prog h ht rest
+        · split at hs
+          · split at hs
+            · cases hs; exact inv_prog h ht rest
+            · cases hs; exact inv_todo h ht htodo [.incNext a b] rest (neutral_incNext a b)
+          · cases hs; exact inv_prog h ht rest
+          · cases hs; exact inv_unlink h ht htodo rest
+      · cases hs; exact inv_prog h ht rest
+    | unlink a =>
+      simp only at hs
+      split at hs
+      · split at hs
+        · cases hs; exact inv_prog h ht rest
+        · cases hs; exact inv_unlink h ht htodo rest
+      · cases hs; exact inv_prog h ht rest
+    | pop a =>
+      simp only [opOk, decide_eq_false_iff_not, Classical.not_not] at hok
+      simp only at hs
+      split at hs
+      · split at hs
+        · cases hs; exact inv_todo h ht htodo [.incPop a] rest (neutral_incPop a)
+        · cases hs; exact inv_clear0 h ht hok htodo none hnone rest
+      · cases hs; exact inv_prog h ht rest
+    | weak a b =>
+      simp only [opOk, decide_eq_false_iff_not, Classical.not_not] at hok
+      simp only at hs
+      split at hs
+      · exact inv_setRefTo h ht htodo hok.1 hs
+      · cases hs; exact inv_clear0 h ht hok.1 htodo none hnone rest
+    | promote a =>
+      simp only at hs
+      split at hs
+      · split at hs
+        · cases hs; exact inv_todo h ht htodo [.incSame a] rest (neutral_incSame a)
+        · cases hs; exact inv_prog h ht rest
+      · cases hs; exact inv_prog h ht rest
+    | demote a =>
+      simp only at hs
+      split at hs
+      · rename_i o ho; cases hs; exact inv_demote h ht htodo ho (some (o, false)) (by intro x hx; cases hx) rest
+      · cases hs; exact inv_prog h ht rest
+    | neutral a =>
+      simp only [opOk, decide_eq_false_iff_not, Classical.not_not] at hok
+      simp only at hs
+      split at hs
+      · rename_i o ho; cases hs; exact inv_demote h ht htodo ho none hnone rest
+      · rename_i hne; cases hs
+        exact inv_setWeak h ht hok (fun x hx => hne x hx) none hnone rest
 
-
-theorem neutral_single_incFrom (a b : Nat) : Neutral [.incFrom a b] := neutral_incFrom a b
-theorem neutral_single_incRaw (a : Nat) : Neutral [.incRaw a] := neutral_incRaw a
 
 theorem inv_doAct {c c1 : Cfg} {t : Nat} {th th' : Th} {act : Act} {more : List Act} {evs : List Evt} (h : Inv c)
     (ht : c.ths[t]? = some th) (htodo : th.todo = act :: more) (hs : doAct c th act more = (c1, th', evs)) :
@@ -86,39 +152,57 @@ theorem inv_doAct {c c1 : Cfg} {t : Nat} {th th' : Th} {act : Act} {more : List 
     split at hs
     · rename_i hz
       split at hs
-      · rename_i hm; cases hs; exact inv_dec_recycle h ht htodo hz hm
       · rename_i hm; cases hs
-        exact inv_dec_delete h ht htodo hz (by simpa using hm)
-    · rename_i hnz; cases hs; exact inv_dec_more h ht htodo hnz
-  | incFrom a b =>
+        exact inv_dec_last h ht htodo hz _ _ (Or.inl ⟨rfl, hm, rfl⟩)
+      · rename_i hm; cases hs
+        exact inv_dec_last h ht htodo hz _ _ (Or.inr ⟨rfl, by simpa using hm, rfl⟩)
+    · cases hs; exact inv_dec_more h ht htodo (fun x => by simp [cntDec]) (fun _ => rfl)
+  | decNoDel o =>
+    cases hs; exact inv_dec_more h ht htodo (fun x => by simp [cntDec]) (fun _ => rfl)
+  | incSlot a b =>
     simp only at hs
     split at hs
-    · cases hs; exact inv_drop h ht htodo (neutral_single_incFrom a b)
+    · cases hs; exact inv_drop h ht htodo (neutral_incSlot a b)
     · rename_i hg
       split at hs
-      · rename_i o ho; cases hs; exact inv_incFrom h ht htodo (by simpa using hg) ho
-      · cases hs; exact inv_drop h ht htodo (neutral_single_incFrom a b)
+      · rename_i o ho; cases hs; exact inv_incSlot h ht htodo (by omega) ho
+      · cases hs; exact inv_drop h ht htodo (neutral_incSlot a b)
   | incRaw a =>
     simp only at hs
     split at hs
-    · cases hs; exact inv_drop h ht htodo (neutral_single_incRaw a)
+    · cases hs; exact inv_drop h ht htodo (neutral_incRaw a)
     · rename_i hg
       split at hs
-      · rename_i o ho; cases hs; exact inv_incRaw h ht htodo (by simpa using hg) ho
-      · cases hs; exact inv_drop h ht htodo (neutral_single_incRaw a)
+      · rename_i o ho; cases hs; exact inv_incRaw h ht htodo (by omega) ho
+      · cases hs; exact inv_drop h ht htodo (neutral_incRaw a)
   | incTmp b =>
     simp only at hs
     split at hs
     · rename_i o ho; cases hs; exact inv_incTmp h ht htodo ho
-    · cases hs; exact inv_drop h ht htodo (neutral_single_incTmp b)
-  | incSwap a b =>
+    · cases hs; exact inv_drop h ht htodo (neutral_incTmp b)
+  | incSame a =>
     simp only at hs
     split at hs
-    · cases hs; exact inv_drop h ht htodo (neutral_single_incSwap a b)
-    · rename_i hg
+    · rename_i o ho
       split at hs
-      · rename_i o ho; cases hs; exact inv_incSwap h ht htodo (by omega) ho
-      · cases hs; exact inv_drop h ht htodo (neutral_single_incSwap a b)
+      · rename_i hce; cases hs; exact inv_incSame h ht htodo ho hce
+      · cases hs; exact inv_drop h ht htodo (neutral_incSame a)
+    · cases hs; exact inv_drop h ht htodo (neutral_incSame a)
+  | incNext a b =>
+    simp only at hs
+    split at hs
+    · rename_i o n hoa hnb; cases hs; exact inv_incNext h ht htodo hoa hnb
+    · cases hs; exact inv_drop h ht htodo (neutral_incNext a b)
+  | incPop a =>
+    simp only at hs
+    split at hs
+    · rename_i o ho
+      split at hs
+      · rename_i n hn; cases hs; exact inv_incPop h ht htodo ho hn
+      · cases hs; exact inv_drop h ht htodo (neutral_incPop a)
+    · cases hs; exact inv_drop h ht htodo (neutral_incPop a)
+  | incOld a n =>
+    exact absurd (by rw [htodo]; simp) (h.noOld t th a n ht)
   | obtain =>
     simp only at hs
     rcases hob : obtain c.pool with ⟨p', g⟩
@@ -135,11 +219,13 @@ theorem inv_doAct {c c1 : Cfg} {t : Nat} {th th' : Th} {act : Act} {more : List 
       cases del with
       | none => cases hs; simpa [delActs] using inv_release h ht htodo hrl
       | some s => cases hs; simpa [delActs] using inv_release h ht htodo hrl
+  | unlocked =>
+    cases hs; exact inv_drop h ht htodo neutral_unlocked
   | delSlab s =>
     cases hs; exact inv_delSlab h ht htodo
 
 /-- every enabled event preserves the joint invariant -/
-theorem inv_step {c c' : Cfg} {e : Ev} {out : List Evt} (h : Inv c) (hs : step c e = some (c', out)) : Inv c' := by
+theorem inv_step {c c' : Cfg} {e : Ev} {out : List Evt} (h : Inv c) (hs : step .new c e = some (c', out)) : Inv c' := by
   unfold step at hs
   cases e with
   | timeout t => cases hs
@@ -157,7 +243,7 @@ theorem inv_step {c c' : Cfg} {e : Ev} {out : List Evt} (h : Inv c) (hs : step c
         | cons op rest =>
           rw [htodo, hprog] at hs
           simp only at hs
-          rcases hso : startOp c t th op rest with ⟨c1, th', evs⟩
+          rcases hso : startOp .new c t th op rest with ⟨c1, th', evs⟩
           rw [hso] at hs
           cases hs
           exact inv_startOp h ht htodo hso
@@ -186,12 +272,12 @@ theorem init_inv (N maxPool L G : Nat) (progs : List (List Op)) (hN : 0 < N) : I
     rw [sumT_zero (fun th hm => by
       have ⟨_, h2, h3⟩ := hmem th hm
       simp [Th.refs, h2, h3, cntDec, cntS_replicate_none])]
-    simp [Cfg.init, cntS_replicate_none]
+    simp [Cfg.init, cntS_replicate_none, cntL]
   have hpr : ∀ o, pendRel (Cfg.init N maxPool L G progs) o = 0 := by
     intro o
     simp only [pendRel]
     exact sumT_zero (fun th hm => by have ⟨_, h2, _⟩ := hmem th hm; simp [h2, cntRel])
-  refine ⟨init_poolInv N maxPool hN, ?_, ?_, ?_, ?_, ?_, ?_, ?_, ?_, ?_, ?_, ?_, ?_⟩
+  refine ⟨init_poolInv N maxPool hN, ?_, ?_, ?_, ?_, ?_, ?_, ?_, ?_, ?_, ?_, ?_, ?_, ?_, ?_, ?_⟩
   · intro o; rw [hrefs]; rfl
   · intro o ho; rw [hrefs] at ho; omega
   · intro t th o ht hr; rw [(hths t th ht).1] at hr; cases hr
@@ -208,6 +294,9 @@ theorem init_inv (N maxPool L G : Nat) (progs : List (List Op)) (hN : 0 < N) : I
   · intro s i ha; simp [Cfg.init] at ha
   · intro s i _; exact ⟨rfl, rfl⟩
   · intro t th s ht hs; rw [(hths t th ht).2.1] at hs; cases hs
+  · simp [Cfg.init]
+  · intro x n hm; simp [Cfg.init] at hm
+  · intro t th a n ht hm; rw [(hths t th ht).2.1] at hm; cases hm
 
 /-- the joint invariant holds in every reachable configuration -/
 theorem reach_inv {N maxPool L G : Nat} {progs : List (List Op)} (hN : 0 < N) {c : Cfg}
